@@ -43,7 +43,8 @@ def gen(rng, n, tier):
                 evs += [["act"], ["start"]]
                 depth += 1
             elif r < 0.72 and depth > 0:
-                evs.append(["end"])
+                # hooks are concurrent tasks: they need not end in LIFO order
+                evs.append(["end", rng.below(depth)])
                 depth -= 1
             else:
                 evs.append(["wstep"])
@@ -108,7 +109,8 @@ def run_impl(case):
                     stack.append(cm)
                 elif e[0] == "end":
                     if stack:
-                        stack.pop().__exit__(None, None, None)
+                        i = (e[1] if len(e) > 1 else len(stack) - 1) % len(stack)
+                        stack.pop(i).__exit__(None, None, None)
                 elif e[0] == "wstep":
                     was_fired = bool(fired)
                     for t in list(timers):
@@ -117,7 +119,7 @@ def run_impl(case):
                             timers.remove(t)
                     await settle()
                     if fired and not was_fired:
-                        trace.append(["fired", clock.now, wd.blocker])
+                        trace.append(["fired", clock.now, len(stack)])  # hooks really pending, counted by the harness
                 # observable after every step
                 pend = [t[0] for t in timers if not t[1].done()]
                 trace.append([clock.now, wd.last_activity, wd.blocker, wd.can_timeout.is_set(),
@@ -156,7 +158,7 @@ def oracle(case, obs):
         if r[0] == "fired":
             now, blocker = r[1], r[2]
             if blocker > 0:
-                v.append({"key": "timeout-during-hook", "what": f"timeout callback fired at t={now} while {blocker} hook(s) pending"})
+                v.append({"key": "timeout-during-hook", "what": f"timeout callback fired at t={now} while {blocker} hook(s) were still pending"})
             break
     # fired although there was activity within the timeout
     fired_at = next((r[1] for r in obs["trace"] if r[0] == "fired"), None)
